@@ -3,7 +3,7 @@
    Host locations go through Shift (Insert) or Expand (Embed); guest locations
    through Expand(0, i).  `den` is the ordered, stranded list of denoted
    residues (model/Loc.v), `bump i n` moves positions at or after i by n. *)
-From GTS Require Import Base Arith Loc Seq BaseLemmas LocProofs EditProofs SeqProofs JoinDen JoinLift RotateProofs RotateJoin InsertSeq.
+From GTS Require Import Base Arith Loc Seq BaseLemmas LocProofs EditProofs SeqProofs JoinDen JoinLift RotateProofs RotateJoin InsertSeq PartialProofs.
 From Coq Require Import Permutation.
 Open Scope Z_scope.
 
@@ -133,3 +133,31 @@ Proof.
   end.
   vm_compute. reflexivity.
 Qed.
+
+(* 5'/3' partial markers stay on the same outer ends.  flags l = (marker on the
+   first end, marker on the last end) in the reading direction of l (a
+   complement reads the other way round; of a multi-part location the first
+   part's first end and the last part's last end).  For every location without
+   join(...) in the input whose ranges are non-empty: Insert (Shift) and Embed
+   (Expand, n > 0) leave both markers where they were -- also when a range is
+   split around the guest (the 5' marker stays on the part before it, the 3'
+   marker on the part after it) and when nested orders are flattened.
+   PARTIAL: join(...) in the input by correspondence + oracle. *)
+Theorem C02_insert_keeps_markers_partial : forall i n, 0 <= n -> forall l,
+  jfree l = true -> ord_ok l = true -> wf_all range_wf l = true ->
+  forall l', shift l i n = Ok l' -> flags l' = flags l.
+Proof. exact shift_keeps_markers. Qed.
+Print Assumptions C02_insert_keeps_markers_partial.
+
+Theorem C02_embed_keeps_markers_partial : forall i n, 0 < n -> forall l,
+  jfree l = true -> ord_ok l = true -> wf_all range_wf l = true ->
+  forall l', expand l i n = Ok l' -> flags l' = flags l.
+Proof. exact embed_keeps_markers. Qed.
+Print Assumptions C02_embed_keeps_markers_partial.
+
+Example C02_markers_example :
+  let l := Complemented (Ordered [Ranged 2 6 true false; Ordered [Point 7; Ranged 8 9 false true]]) in
+  flags l = (true, true) /\
+  shift l 4 3 = Ok (Complemented (Ordered [Joined [Ranged 2 4 true false; Ranged 7 9 false false]; Point 10; Ranged 11 12 false true])) /\
+  flags (Complemented (Ordered [Joined [Ranged 2 4 true false; Ranged 7 9 false false]; Point 10; Ranged 11 12 false true])) = (true, true).
+Proof. vm_compute. repeat split; reflexivity. Qed.
